@@ -83,7 +83,7 @@ func (b *StoredBatch) LastOffset() int64 {
 type Partition struct {
 	// OpenTxn: the last OpenTxn offsets of the log belong to a transaction that
 	// is still open: the last stable offset is LEO - OpenTxn
-	OpenTxn int64
+	OpenTxn     int64
 	Topic       string
 	ID          int32
 	Leader      int32
@@ -280,6 +280,12 @@ type Cluster struct {
 	// CutSilent: after the bytes of a "cut-exact" fault the broker neither
 	// closes nor sends anything more on the connection
 	CutSilent bool
+	// ForceRecordSetLimit: every fetched record set is cut after this many
+	// bytes, wherever that falls (0: off)
+	ForceRecordSetLimit int
+	// MemberRack, when set, tells the assignment monitor the rack a group
+	// member was configured with (false: unknown / do not check racks)
+	MemberRack func(memberID string) (rack string, ok bool)
 	// ThrottleMs: the throttle_time_ms that responses carry (where the api and
 	// version have the field). Purely informational: the broker has already
 	// applied the quota by delaying the response; the request was served.
